@@ -17,6 +17,7 @@ import (
 	"github.com/taskctl/taskctl/pkg/runner"
 	"github.com/taskctl/taskctl/pkg/scheduler"
 	"github.com/taskctl/taskctl/pkg/task"
+	"github.com/taskctl/taskctl/pkg/variables"
 
 	"verif/internal/h"
 )
@@ -31,7 +32,7 @@ type taskCase struct {
 	Fail       []int  `json:"fail"` // exit status per command (0 = succeeds)
 	How        string `json:"how"`  // exit | subshell | sh | signal
 	Allow      bool   `json:"allow_failure"`
-	Before     int    `json:"before"` // 0 absent, 1 ok, 2 fails, 3 = two commands [fails, ok], 4 = two commands [ok, fails]
+	Before     int    `json:"before"`          // 0 absent, 1 ok, 2 fails, 3 = two commands [fails, ok], 4 = two commands [ok, fails]
 	Rerun      bool   `json:"rerun,omitempty"` // the same task object is run a second time after a first run in which its first command failed
 	After      int    `json:"after"`
 	Cond       int    `json:"cond"` // 0 absent, 1 true, 2 false
@@ -84,6 +85,11 @@ func runTaskCase(a args, tcase taskCase, idx int, shared *runner.TaskRunner) {
 		if tcase.Overlap {
 			cmd = fmt.Sprintf("printf \"S%d:$V\\n\" >> '%s'; sleep 0.01; ", i, trace) + cmd
 		}
+		if shared != nil || idx%5 == 2 {
+			// template syntax that is part of the command: a reference to the task's own variable, and escaped braces
+			// that have to reach the shell as literal braces
+			cmd = `: {{ .Own }}; printf '%s\n' '{{ "{{" }}.Names{{ "}}" }}' > /dev/null; ` + cmd
+		}
 		if tcase.Format != "" {
 			cmd = `sh -c 'printf "a\033[3"; sleep 0.03; printf "1mRED\033[0m\n"; printf "err\033[" >&2; printf "0m\n" >&2'; ` + cmd
 		}
@@ -95,6 +101,7 @@ func runTaskCase(a args, tcase taskCase, idx int, shared *runner.TaskRunner) {
 	for v := 0; v < tcase.Variations; v++ {
 		t.Variations = append(t.Variations, map[string]string{"V": fmt.Sprint("v", v)})
 	}
+	t.Variables = variables.FromMap(map[string]string{"Own": t.Name})
 	switch tcase.Before {
 	case 1:
 		t.Before = []string{tok("before")}
